@@ -29,9 +29,16 @@ Section Create.
   Definition ones_like a sh := full_like a one sh.
   Definition empty_like a sh := full_like a zero sh.
 
-  (* asarray(ndarray / list / scalar) = COO.from_numpy(np.asarray(obj)) with fill 0;
+  (* asarray(ndarray / list / scalar) = COO.from_numpy(np.asarray(obj)):
+       fill_value = _zero_of_dtype(x.dtype) if x.shape else x
+     i.e. fill 0 and the positions that differ from 0 stored — except for a 0-d input, whose value becomes
+     the fill of an array that stores nothing;
      asarray(sparse array) = obj.asformat(format): the same array *)
-  Definition asarray_dense (veqb : V -> V -> bool) (d : dense V) : coo V := from_dense veqb d zero.
+  Definition asarray_dense (veqb : V -> V -> bool) (d : dense V) : coo V :=
+    match d_shape d, d_flat d with
+    | [], v :: _ => mkCOO [] [] [] v
+    | _, _ => from_dense veqb d zero
+    end.
   Definition asarray_sparse (a : coo V) : coo V := a.
 
   (* ---------------------------------------------------------------- eye *)
